@@ -71,6 +71,57 @@ func fragSizes(g *Gen, n int, o *Out) {
 			report(prop, fmt.Sprintf("%s: got %s, expected %s", what, got, want), text, size, datum)
 		}
 	}
+	// ---- C15 / C10 / C16: the language has no size limits — every size of chain, operand, blank run, identifier,
+	// literal and selector is derivable and must be accepted, with the tree the grammar prescribes (its size is
+	// checked through the step count being finite and the verdict; small sizes also go to the model)
+	accept := func(what, text string, size int) {
+		var ans string
+		if size <= 20 {
+			ans = emitParse(o, 0, text)
+		} else {
+			ans = realParse(0, []byte(text))
+			o.meta.Cases++
+		}
+		o.count("sizes:parse")
+		if !strings.HasPrefix(ans, "ok ") {
+			if len(ans) > 200 {
+				ans = ans[:200]
+			}
+			show := text
+			if len(show) > 300 {
+				show = show[:300] + "…"
+			}
+			for _, p := range []string{"C15", "C10", "C16"} {
+				o.finding(Finding{Property: p, Kind: "failing-input", What: fmt.Sprintf("%s of size %d is derivable from the grammar but the parser answers %s", what, size, ans), Request: "parse 0 " + hx(text), Detail: show})
+			}
+		}
+	}
+	for _, k := range ladder {
+		if k == 0 || k > 4100 {
+			continue
+		}
+		ts := make([]string, k)
+		for i := range ts {
+			ts[i] = fmt.Sprintf("f%d == %d", i, i)
+		}
+		accept("and-chain", strings.Join(ts, " and "), k)
+		accept("or-chain", strings.Join(ts, " or "), k)
+		accept("mixed chain", strings.Join(ts, " and ")+" or "+strings.Join(ts, " or "), 2*k)
+		accept("blank run", "a"+strings.Repeat(" \t\r\n", k)+"=="+strings.Repeat(" ", k)+"1", k)
+		accept("identifier", strings.Repeat("ab_9", k)+" == 1", k)
+		accept("dotted selector", "a"+strings.Repeat(".b", k)+" is empty", k)
+		accept("bracket selector", "a"+strings.Repeat("[\"k\"]", k)+" is empty", k)
+		accept("pointer selector", "\""+strings.Repeat("/seg", k)+"\" is not empty", k)
+		accept("digit segment", "a."+strings.Repeat("7", k)+" == 1", k)
+		accept("number literal", "a == 1"+strings.Repeat("0", k)+"."+strings.Repeat("5", k), k)
+		accept("quantifier chain", strings.Repeat("any a as x { ", minInt(k, 200))+"x == 1"+strings.Repeat(" }", minInt(k, 200)), minInt(k, 200))
+		if k <= 64 {
+			accept("run of not", strings.Repeat("not ", k)+"a == 1", k)
+		}
+		if k <= 7 {
+			accept("nested parentheses", strings.Repeat("(", k)+"a == 1"+strings.Repeat(")", k), k)
+		}
+	}
 	d0 := map[string]interface{}{"p": 0, "s": "x"}
 	for _, k := range ladder {
 		if k == 0 || k > 4100 { // the parser is superlinear in the number of operands
@@ -216,4 +267,11 @@ func safeExecuteFilter(f *bexpr.Filter, data interface{}) (res interface{}, err 
 		}
 	}()
 	return f.Execute(data)
+}
+
+func minInt(a, b int) int {
+	if a < b {
+		return a
+	}
+	return b
 }
